@@ -265,15 +265,26 @@ func TestC06FirstTouch(t *testing.T) {
 		{K: "create", Val: 2, Exp: Exp1h}, {K: "put", Val: 2, Exp: Exp1h}, {K: "putmany", Keys: []int{0, 1}, Vals: []int{2, 3}, Exps: []int{Exp1h, Exp3h}},
 		{K: "put", Val: 2, Exp: Exp3h},
 	}
+	// how the key came by its expiring record: written with the expiry, or stored without one and given it by a later write
+	var prefixes [][]SOp
 	for _, w := range writes {
+		p := []SOp{w}
+		if w.K == "put" {
+			p = append(p, SOp{K: "cas", Val: 2, Ver: 0, Exp: w.Exp}) // CAS path writes the TTL too
+		}
+		prefixes = append(prefixes, p)
+	}
+	prefixes = append(prefixes,
+		[]SOp{{K: "put", Val: 2}, {K: "cas", Val: 3, Ver: 0, Exp: Exp1h}},
+		[]SOp{{K: "create", Val: 2}, {K: "put", Val: 3, Exp: Exp1h}},
+		[]SOp{{K: "putmany", Keys: []int{0, 1}, Vals: []int{2, 3}, Exps: []int{0, 0}}, {K: "cas", Val: 2, Ver: 0, Exp: Exp3h}},
+		[]SOp{{K: "put", Val: 2, Exp: Exp100h}, {K: "cas", Val: 3, Ver: 0, Exp: Exp1h}})
+	for _, prefix := range prefixes {
 		for _, adv := range []int{47, 97, 251} {
 			for _, tch := range touches {
 				for _, after := range []SOp{{K: "get"}, {K: "list", Pat: 0}, {K: "create", Val: 3}} {
 					for _, park := range []bool{false, true} {
-						c := SCase{Ops: []SOp{w}}
-						if w.K == "put" {
-							c.Ops = append(c.Ops, SOp{K: "cas", Val: 2, Ver: 0, Exp: w.Exp}) // CAS path writes the TTL too
-						}
+						c := SCase{Ops: append([]SOp{}, prefix...)}
 						if park {
 							c.Ops = append(c.Ops, SOp{K: "park"})
 						}
